@@ -1,4 +1,163 @@
+(* C15 — An interrupt from any goroutine at any moment stops the script promptly, cleanly.
+   ONLY theorem statements; each is closed by [exact] of a lemma of C15/Proofs.v. *)
 From Coq Require Import List Arith NArith Bool.
-From Verif.C15 Require Import Model.
-Theorem placeholder : True. Proof. exact I. Qed.
-Print Assumptions placeholder.
+Import ListNotations.
+From Verif.C15 Require Import Model Proofs.
+
+(* ---- 1. promptly ------------------------------------------------------------------------- *)
+
+(* The run loop of vm.run() for an ARBITRARY instruction semantics [exec], halting condition and environment
+   (another goroutine acting between the poll and the instruction: env_mid, or during/after it: env_end).
+   If the flag is set when iteration [it] polls, or becomes set before the next poll, this loop executes
+   at most ONE more instruction (0 in the first case) and then unwinds; or it had already halted. *)
+Theorem interrupt_prompt : forall (S : Type) (flag halted : S -> bool) (exec : S -> S) (env_mid env_end : nat -> S -> S)
+  fuel it n s,
+  (flag s = true \/ flag (env_end it (exec (env_mid it s))) = true) ->
+  (exists s' n', loop S flag halted exec env_mid env_end (Datatypes.S (Datatypes.S fuel)) it n s = LInterrupted s' n'
+                 /\ n' <= Datatypes.S n)
+  \/ (exists s' n', loop S flag halted exec env_mid env_end (Datatypes.S (Datatypes.S fuel)) it n s = LHalted s' n' /\ n' = n).
+Proof. exact Proofs.loop_prompt. Qed.
+
+Theorem interrupt_prompt_at_poll : forall (S : Type) (flag halted : S -> bool) (exec : S -> S) env_mid env_end fuel it n s,
+  flag s = true -> loop S flag halted exec env_mid env_end (Datatypes.S fuel) it n s = LInterrupted s n.
+Proof. exact Proofs.loop_set_at_poll. Qed.
+
+(* Nested native -> JS re-entries (vm.try, __call, nested RunProgram, generator resumption, promise job):
+   EVERY run loop of the control skeleton, for every instruction stream and every state — any nesting depth, any
+   stacks — that is entered or continued while the flag is set executes no instruction, logs nothing and unwinds
+   with the InterruptedError carrying the stored value. *)
+Theorem interrupt_prompt_every_level : forall c p s, flag s = true ->
+  exec_c c p s = (OIntr (ival (tick c s)), tick c s).
+Proof. exact Proofs.exec_c_flag_set. Qed.
+
+(* Hence, over the WHOLE execution tree of one API call — every program, entry point, nesting, every moment
+   [fire c] at which another goroutine calls Interrupt, with or without ClearInterrupt by the script — at most one
+   instruction is started while the flag is set; the bound does not depend on the program. *)
+Theorem interrupt_prompt_total : forall c fuel e p o s',
+  run_top c fuel e p idle0 = (o, s') -> late s' <= 1.
+Proof. exact Proofs.late_at_most_one. Qed.
+
+(* ... and none when the interrupt is raised by the running goroutine itself (from a Go function) *)
+Theorem interrupt_prompt_sync : forall c fuel e p o s',
+  fire c = None -> run_top c fuel e p idle0 = (o, s') -> late s' = 0.
+Proof. exact Proofs.late_zero_sync. Qed.
+
+(* ---- 2. no handler ------------------------------------------------------------------------ *)
+
+(* handleThrow with an uncatchable payload, for EVERY try stack: it never transfers control to a catch or
+   finally block; it pops handler frames only and stops at the first tryPanicMarker frame (or the empty stack),
+   then panics again. *)
+Theorem interrupt_runs_no_handler : forall ts,
+  snd (handle_throw false ts) = HRepanic /\
+  (forall f, In f (fst (handle_throw false ts)) -> In f ts) /\
+  match fst (handle_throw false ts) with
+  | [] => forallb (fun f => negb (is_marker f)) ts = true
+  | f :: _ => is_marker f = true
+  end.
+Proof. exact Proofs.handle_throw_uncatchable. Qed.
+
+Theorem interrupt_skips_exactly_handlers : forall ts,
+  exists hs, ts = hs ++ fst (handle_throw false ts) /\ forallb (fun f => negb (is_marker f)) hs = true.
+Proof. exact Proofs.handle_throw_uncatchable_split. Qed.
+
+(* ---- 3. idle ------------------------------------------------------------------------------ *)
+
+(* Interrupt(v) while idle: the next call (RunProgram or a Callable), whatever the program, returns the
+   InterruptedError carrying v before its first instruction, and leaves the runtime idle with the flag cleared —
+   in the specification and in goja as it is. *)
+Theorem idle_interrupt_next_call : forall fx k cl fuel e p v,
+  let c := mkCfg fx k cl None in
+  exists s', run_top c fuel e p (interrupt v idle0) = (OIntr v, s')
+             /\ log s' = [] /\ pcnt s' = 0 /\ late s' = 0 /\ is_idle s' = true.
+Proof. exact Proofs.idle_interrupt_next. Qed.
+
+(* ... unless ClearInterrupt was called: then the call runs as on a fresh runtime *)
+Theorem idle_interrupt_cleared : forall fx k cl fuel e p v,
+  let c := mkCfg fx k cl None in
+  run_top c fuel e p (clear_interrupt (interrupt v idle0)) = run_top c fuel e p (mkSt 0 [] [] [] false v [] 0 0 0).
+Proof. exact Proofs.idle_interrupt_cleared_runs. Qed.
+
+(* ---- 4. no race on interruptVal ----------------------------------------------------------- *)
+
+(* EVERY interleaving (any length) of any number of threads, each running any number of Interrupt(v) calls
+   (Lock; Wr v; AtomicWr flag; Unlock) or any number of run-loop polls (AtomicRd flag; if set: Lock; Rd v; Unlock),
+   each thread possibly not finished yet, in which the mutex is respected: any two conflicting plain accesses
+   to interruptVal by different threads are ordered by happens-before — already by program order + lock order. *)
+Theorem no_race_flag : forall (tr : trace) (progs : nat -> list event),
+  lock_ok None tr = true ->
+  (forall t, protocol_thread (progs t)) ->
+  (forall t, exists more, progs t = proj t tr ++ more) ->
+  forall i j, i < j -> j < length tr ->
+  fst (ev_at tr i) <> fst (ev_at tr j) ->
+  conflicting (snd (ev_at tr i)) (snd (ev_at tr j)) = true ->
+  hb hb1_lock tr i j /\ hb hb1 tr i j.
+Proof. exact Proofs.no_race_protocol. Qed.
+
+(* ---- 5. cleanly: refuted on the current tree inside generator/async resumptions (F16) and for-of over an
+        iterator with a script return() (F20); the specification is clean on the same inputs ------------- *)
+
+Definition w_gen : code := CCons (IGen (SCons (CCons IProbe CNil) (SCons (CCons IProbe CNil) SNil))) CNil.
+Definition w_async : code := CCons (IAsync (CCons IProbe CNil) (CCons IProbe CNil)) CNil.
+Definition w_iter : code := CCons (IForOf (Some 11%N) (SCons (CCons IProbe CNil) (SCons (CCons IProbe CNil) SNil))) CNil.
+
+Lemma interrupt_clean_refuted :
+  (let '(o, s) := run_top (mkCfg false 2 false None) 8 ERun w_gen idle0 in
+   o = OIntr 1002%N /\ idle_vec s = [2; 1; 0; 0; 1]) /\
+  (let '(o, s) := run_top (mkCfg false 2 false None) 8 ERun w_async idle0 in
+   o = OIntr 1002%N /\ idle_vec s = [1; 1; 0; 0; 1]) /\
+  (let '(o, s) := run_top (mkCfg false 1 false None) 8 ERun w_iter idle0 in
+   o = OIntr 1001%N /\ idle_vec s = [0; 0; 1; 0; 0]).
+Proof. vm_compute. repeat split. Qed.
+
+Lemma interrupt_clean_spec_on_witnesses :
+  is_idle (snd (run_top (mkCfg true 2 false None) 8 ERun w_gen idle0)) = true /\
+  is_idle (snd (run_top (mkCfg true 2 false None) 8 ERun w_async idle0)) = true /\
+  is_idle (snd (run_top (mkCfg true 1 false None) 8 ERun w_iter idle0)) = true.
+Proof. vm_compute. repeat split. Qed.
+
+(* ---- non-vacuity -------------------------------------------------------------------------- *)
+
+(* the bound 1 is attained: another goroutine fires between the poll and the exec of the second instruction *)
+Example prompt_bound_tight :
+  let '(o, s) := run_top (mkCfg true 0 false (Some (3, 55%N))) 8 ERun (CCons (IEv 8%N) (CCons (IEv 16%N) (CCons (IEv 24%N) CNil))) idle0 in
+  o = OIntr 55%N /\ late s = 1 /\ rev (log s) = [8%N; 16%N] /\ is_idle s = true.
+Proof. vm_compute. repeat split. Qed.
+
+(* an interrupt inside try/catch/finally inside a comparator inside a Callable: nothing logged afterwards, jobs dropped *)
+Example no_handler_runs :
+  let p := CCons (IJob (CCons (IEv 12%N) CNil))
+           (CCons (ITry (CCons (INat NCb (SCons (CCons IProbe (CCons (IEv 8%N) CNil)) SNil)) CNil)
+                        true (CCons (IEv 17%N) CNil) true (CCons (IEv 18%N) CNil)) (CCons (IEv 24%N) CNil)) in
+  let '(o, s) := run_top (mkCfg false 1 false None) 8 ECall p idle0 in
+  o = OIntr 1001%N /\ rev (log s) = [7%N] /\ is_idle s = true.
+Proof. vm_compute. repeat split. Qed.
+
+Example handle_throw_example :
+  handle_throw false [mkFrame 3 0 (FHandler true true); mkFrame 2 0 (FHandler false true); mkFrame 1 0 FMarker; mkFrame 1 0 (FHandler true false)]
+  = ([mkFrame 1 0 FMarker; mkFrame 1 0 (FHandler true false)], HRepanic).
+Proof. reflexivity. Qed.
+
+(* two interrupters and the runner, interleaved; the hypotheses of no_race_flag hold and there are conflicting pairs *)
+Definition ex_trace : trace :=
+  [(0, ARd false); (1, Lock); (1, Wr 5%N); (0, ARd false); (1, AWr true); (1, Unlock); (0, ARd true); (2, Lock);
+   (2, Wr 6%N); (2, AWr true); (2, Unlock); (0, Lock); (0, Rd 6%N); (0, Unlock)].
+Example no_race_nonvacuous :
+  lock_ok None ex_trace = true /\
+  proj 0 ex_trace = runner_polls [None; None; Some 6%N] /\
+  proj 1 ex_trace = interrupter_calls [5%N] /\
+  (exists more, interrupter_calls [6%N; 7%N] = proj 2 ex_trace ++ more) /\
+  conflicting (snd (ev_at ex_trace 2)) (snd (ev_at ex_trace 12)) = true /\
+  conflicting (snd (ev_at ex_trace 2)) (snd (ev_at ex_trace 8)) = true.
+Proof. vm_compute. repeat split. exists (interrupter 7%N). reflexivity. Qed.
+
+Print Assumptions interrupt_prompt.
+Print Assumptions interrupt_prompt_at_poll.
+Print Assumptions interrupt_prompt_every_level.
+Print Assumptions interrupt_prompt_total.
+Print Assumptions interrupt_prompt_sync.
+Print Assumptions interrupt_runs_no_handler.
+Print Assumptions interrupt_skips_exactly_handlers.
+Print Assumptions idle_interrupt_next_call.
+Print Assumptions idle_interrupt_cleared.
+Print Assumptions no_race_flag.
+Print Assumptions interrupt_clean_refuted.
